@@ -252,6 +252,55 @@ def h_exponent_doc(env, level, nspin):
     env.equal("exponent_is_documented_formula", got, doc)
 
 
+SDMX_C = "ciderpress/lib/mod_cider/fast_sdmx.c"
+
+
+def _sdmx_mol():
+    from pyscf import gto
+    bas_h = gto.basis.parse("H S\n 3.0 0.2 0.1\n 1.0 0.5 0.3\nH P\n 0.8 1.0 0.4\n 0.3 0.2 1.0\n")      # s and p shells with two contractions each
+    bas_he = gto.basis.parse("He S\n 2.0 1.0\nHe D\n 1.1 1.0\n")
+    return gto.M(atom="H 0 0 0; He 0 0 1.2", basis={"H": bas_h, "He": bas_he}, spin=1, verbose=0)
+
+
+def h_sdmx_contract(env, ng=2):
+    """SDMXcontract_ao_to_bas: the projection of the atomic orbitals of every *radial function* (each contraction of every shell)
+    onto that atom's real spherical harmonics, b[irf, g] = sum_m Y_{l m}(g; atom) * ao[ao_loc[shell] + ictr (2l+1) + m, g]
+    (PySCF's AO order is contraction-major inside a shell), for a basis with generally contracted s and p shells"""
+    from ..llsym.ccall import ccall
+    mol = _sdmx_mol()
+    nbas, natm = mol.nbas, mol.natm
+    bas, atm, envv = mol._bas.astype(np.int32), mol._atm.astype(np.int32), mol._env.astype(np.float64)
+    ao_loc = mol.ao_loc_nr().astype(np.int32)
+    nctr = bas[:, 3]
+    rf_loc = np.append([0], np.cumsum(nctr)).astype(np.int32)
+    yl = np.zeros(natm + 1, dtype=np.int32)
+    for ia in range(natm):
+        lm = int(np.max(bas[bas[:, 0] == ia, 1])) + 1
+        yl[ia + 1] = yl[ia] + lm * lm
+    nrf, nao = int(rf_loc[-1]), int(ao_loc[-1])
+    ylm = env.arr("ylm", (int(yl[-1]), ng), lo="-2", hi="2")
+    ao = env.arr("ao", (nao, ng), lo="-2", hi="2")
+    vb = env.arr("vb0", (nrf, ng), lo="-2", hi="2")          # pre-filled: the routine overwrites (does not accumulate)
+    out = vb.copy()
+    ccall(env, SDMX_C, "SDMXcontract_ao_to_bas", [ng, out, ylm.copy(), ao.copy(), np.array([0, nbas], dtype=np.int32), ao_loc, yl, atm.reshape(-1).copy(), natm, bas.reshape(-1).copy(), nbas,
+                                                   envv.copy(), nrf, rf_loc])
+    for sh in range(nbas):
+        ia, l = int(bas[sh, 0]), int(bas[sh, 1])
+        for ic in range(int(nctr[sh])):
+            irf = int(rf_loc[sh]) + ic
+            for g in range(ng):
+                want = sum((ylm[int(yl[ia]) + l * l + m, g] * ao[int(ao_loc[sh]) + ic * (2 * l + 1) + m, g] for m in range(2 * l + 1)), env.const(0))
+                env.equal("shell%d_contraction%d_g%d" % (sh, ic, g), out[irf, g], want)
+    # the backward routine is the transpose (potential w.r.t. the AO values)
+    vin = env.arr("v", (nrf, ng), lo="-2", hi="2")
+    aob = env.zeros((nao, ng))
+    ccall(env, SDMX_C, "SDMXcontract_ao_to_bas_bwd", [ng, vin.copy(), ylm.copy(), aob, np.array([0, nbas], dtype=np.int32), ao_loc, yl, atm.reshape(-1).copy(), natm, bas.reshape(-1).copy(), nbas,
+                                                       envv.copy(), nrf, rf_loc])
+    lhs = sum((out[i, g] * vin[i, g] for i in range(nrf) for g in range(ng)), env.const(0))
+    rhs = sum((ao[u, g] * aob[u, g] for u in range(nao) for g in range(ng)), env.const(0))
+    env.equal("backward_is_transpose", lhs, rhs)
+
+
 def tasks(tier):
     out = []
     for spec in ("se", "se_ar2", "se_a2r4", "se_erf_rinv"):
@@ -265,6 +314,7 @@ def tasks(tier):
     for formula in ("etb", "zexp"):
         out.append(Task("index/%s" % formula, h_ind, dict(formula=formula)))
     out.append(Task("clip", h_clip, {}, max_paths=64))
+    out.append(Task("sdmx_contract/ao_to_bas", h_sdmx_contract, {}))
     out.append(Task("smooth_exponent", h_smooth, {}))
     out.append(Task("tables", h_tables, {}, mods="numint"))
     for nspin in (1, 2):
